@@ -12,7 +12,7 @@ from __future__ import annotations
 
 from ..ref import canon
 from ..spec import features
-from ..world import SynthWorld, render_value
+from ..world import SynthWorld, make_world, render_value
 
 ID = "C07"
 LEVEL = "exploration"
@@ -40,10 +40,17 @@ def total_genes(g):
     return sum(len(v) for v in g.dna.values())
 
 
+def directed(tier):
+    """the shipped grammars and the test-suite hierarchies (real classes) under seeded configurations"""
+    from ..world import corpus_directed
+
+    return corpus_directed(tier, per_spec_quick=3, per_spec_thorough=12)
+
+
 def run(ctx):
     H = ctx.H
     refined = bool(H.draw(2))
-    w = SynthWorld(ctx, feat=FEAT if refined else FEAT_PLAIN, reps=("ge", "sge", "dsge", "stack"),
+    w = make_world(ctx, FEAT if refined else FEAT_PLAIN, reps=("ge", "sge", "dsge", "stack"),
                    gene_lengths=(2, 3, 8, 32, 64, 256), delta=(1, 1, 2, 3))
     try:
         ctx.sample = w.describe()
